@@ -116,7 +116,12 @@ class C09(Case):
         items = data["items"]
         cond = sp["cond"]
         sat = [S.holds(alg, cond, {"x": it}) for it in items]
-        uses_pred = any(k in json.dumps(cond) for k in ('"pf"', '"PC"', '"m"', '"big"', '"pf2"', '"PC2"'))
+        # the predicate is certainly reached only when it is the first thing evaluated (evaluation is lazy: a conjunct that
+        # fails for every object legitimately keeps later predicates from being called at all)
+        leaf = cond
+        while leaf[0] in ("and", "or", "not", "&", "|", "~"):
+            leaf = leaf[1]
+        uses_pred = leaf[0] in ("pf", "PC", "m", "big", "pf2", "PC2") and len(items) > 0
         obs = []
         for amb in AMBIENTS:
             o = outcome[amb]
